@@ -140,6 +140,8 @@ def real_faults():
         ("out-of-range-slice", conn("Mid", "x", "x", ["cat", ["slice", ["sig", "w4"], 7], ["slice", ["sig", "w"], 1]]), ("Mid", "x", "x", ["sig", "w"])),
         ("missing-connection", conn("Mid", "x", "y", None), ("Mid", "x", "y", ["sig", "s1"])),
         ("extra-connection", conn("Top", "g0", "zz", ["sig", "k"]), None),
+        # found by the LAST pass only: by then every checking pass has finished with the modules above
+        ("unnamed-module", (lambda d: d.__setitem__("unnamed_after_build", "Mid")), None),
     ]
 
 
@@ -187,6 +189,11 @@ def check_trace(rec, log: Log, fresh: dict, scenario: dict):
             if ev["outcome"] == "raised" and ev["signature"] != fail["signature"]:
                 rec.violation("generator-retry-spurious-error", f"{what}: calling the generator again raised {ev['signature'][:120]} instead of "
                                                                 f"running the body again", case=case)
+            elif ev["outcome"] == "returned" and scenario["source"] == "generator-naming":
+                # nothing was changed: a fresh process refuses this call (its parameters cannot be named), so must the repeat
+                r = ev.get("result")
+                rec.violation("failed-call-repeat-succeeds", f"{what}: repeating the call, unchanged, returned {getattr(r, 'name', r)!r} instead of reporting the "
+                                                             f"original error again", case=case)
             elif ev["outcome"] == "returned" and scenario.get("body_runs_expected") is not None and \
                     scenario["body_runs"][0] != scenario["body_runs_expected"]:
                 rec.violation("generator-body-not-rerun", f"{what}: body ran {scenario['body_runs'][0]} time(s), expected {scenario['body_runs_expected']}", case=case)
@@ -346,6 +353,8 @@ def real_fault_scenario(rec, design, fault, variant, repair_mode="edit-offender"
     except Exception:
         rec.count("scenario.fault-rejected-at-construction")
         return
+    if bad.get("unnamed_after_build"):
+        sess.built.modules[bad["unnamed_after_build"]].name = None
     scenario = {"source": "design-fault", "where": name, "offender": "Mid" if name != "extra-connection" else "Top", "design_variant": variant,
                 "repair": repair_mode, "first_call": listmode or "single"}
     rec.case(key=jhash(scenario), nontrivial=True, sample=scenario if rec.evaluations % 60 == 1 else None)
@@ -397,7 +406,77 @@ def real_fault_scenario(rec, design, fault, variant, repair_mode="edit-offender"
             mid2 = mb.finish()
             top.m0 = h.Instance(of=mid2)(k=top.j)
 
+    if repair_mode in ("retarget-ancestor", "retarget-ancestor-extra-port"):
+        # ... or keeps the top's instance and assigns its target (`inst.of = ...`, an ordinary attribute): to a corrected copy of the
+        # faulty module, or to a copy that has one more port than the instance connects (the edited design is ill-formed then: a
+        # fresh process refuses it)
+        repaired_design = copy.deepcopy(design)
+        refsem.get_module(repaired_design, "Mid")["name"] = "Mid2"
+        repaired_design["modules"] = [m for m in repaired_design["modules"] if m["name"] != "Wrap"]
+        for i in refsem.get_module(repaired_design, "Top")["insts"]:
+            if i["name"] == "m0":
+                i["of"] = ["mod", "Mid2"]
+        if repair_mode.endswith("extra-port"):
+            refsem.get_module(repaired_design, "Mid2")["ports"].append(["zzp", 1, "none"])
+
+        def repair():
+            mb = build.ModBuilder(repaired_design, refsem.get_module(repaired_design, "Mid2"), sess.built)
+            mb.declare()
+            mb.connect_all()
+            mid2 = mb.finish()
+            top.instances["m0"].of = mid2
+
     continuations(rec, log, sess, bad, uid, scenario, repair=repair, repaired_design=repaired_design, unrelated=unrelated)
+
+
+def late_failure_retarget(rec):
+    """A plain cell (no bundles, arrays or references: nothing the exporter would stumble over by itself) fails in the LAST pass
+    (it has no name).  The designer then assigns the parent's instance another target (`inst.of = ...`, an ordinary attribute) whose
+    interface does not fit the connections, and exports again: a fresh process refuses that design, so must this one."""
+    import hdl21 as h
+
+    for variant in ("wider-port", "extra-port", "narrower-port", "renamed-port"):
+        for how in ("assign-of", "assign-of-then-elaborate"):
+            n = next(_uid)
+            rec.count("late-failure.scenarios")
+            case = {"kind": "scenario", "source": "late-failure-retarget", "where": variant, "how": how}
+            rec.case(key=jhash(case), nontrivial=True, sample=case if n % 10 == 0 else None)
+            cell = h.Module()  # (no name)
+            cell.add(h.Port(width=2), name="p")
+            cell.add(h.Instance(of=h.R(r=1))(p=cell.p[0], n=cell.p[1]), name="r")
+            top = h.Module(name=f"LateTop{n}")
+            top.add(h.Signal(width=2), name="s")
+            top.add(h.Instance(of=cell)(p=top.s), name="i")
+            try:
+                h.to_proto(top)
+                rec.count("scenario.first-call-did-not-fail")
+                continue
+            except Exception as e:
+                first = sig_of(e)
+            new = h.Module(name=f"LateCell{n}")
+            w = {"wider-port": 3, "narrower-port": 1}.get(variant, 2)
+            new.add(h.Port(width=w), name="q" if variant == "renamed-port" else "p")
+            if variant == "extra-port":
+                new.add(h.Port(), name="extra")
+            try:
+                top.i.of = new
+            except Exception:
+                rec.count("trace.repair-refused-at-edit")
+                continue
+            try:
+                if how.endswith("elaborate"):
+                    h.elaborate(top)
+                pkg = h.to_proto(top)
+            except Exception:
+                rec.count("trace.repair-raised")
+                continue
+            rec.violation("repair-retry-wrong-package", f"after a failed call ({first[:80]}) [late-failure-retarget / {variant}]: the instance was given a target whose "
+                                                        f"ports do not fit its connections, and the export RETURNED a package (modules {[m.name for m in pkg.modules]}); a fresh "
+                                                        f"process refuses this design", case=case, source="late-failure-retarget", where=variant)
+
+
+class _Opaque:
+    """A hashable value that no JSON encoder knows: generator parameters holding it cannot be named."""
 
 
 def generator_scenario(rec, mode):
@@ -441,9 +520,14 @@ def generator_scenario(rec, mode):
         scenario = {"source": "generator-naming", "where": mode, "body_runs": [0], "body_runs_expected": None}
         rec.case(key=jhash({"source": "generator-naming", "n": n % 3}), nontrivial=True, sample=None)
         log = Log()
-        log.call("generator-first", "G", True, False, lambda: GQ(x=bad) and None)
-        log.call("generator-retry", "G", True, False, lambda: GQ(x=bad) and None)
-        check_trace(rec, log, {}, scenario)
+        for bad in (h.Instance(of=h.R(r=1)), object(), _Opaque(), (1, _Opaque())):
+            log = Log()
+            log.call("generator-first", "G", True, False, lambda: GQ(x=bad) and None)
+            log.call("generator-retry", "G", True, False, lambda: GQ(x=bad) and None)
+            log.call("generator-retry", "G", True, False, lambda: GQ(Q(x=bad)) and None)
+            if log.events[0]["outcome"] == "raised":
+                rec.count("generator.naming-failures")
+            check_trace(rec, log, {}, scenario)
         return
     scenario = {"source": "generator-body", "where": mode, "body_runs": runs, "body_runs_expected": 2}
     rec.case(key=jhash({"source": "generator-body", "where": mode, "n": n % 3}), nontrivial=True, sample={"source": "generator-body", "mode": mode} if n % 40 == 0 else None)
@@ -571,6 +655,8 @@ def run(ctx, rec):
             work.append(("real", d, fault, variant, "edit-offender"))
             if fault[0] != "extra-connection":
                 work.append(("real", d, fault, variant, "repoint-ancestor"))
+                work.append(("real", d, fault, variant, "retarget-ancestor"))
+                work.append(("real", d, fault, variant, "retarget-ancestor-extra-port"))
             work.append(("real", d, fault, variant, "edit-offender", "good-first" if variant == 0 else "bad-first"))
     for mode in ("direct", "nested", "nested-caught", "unnameable", "direct-abort", "nested-abort"):
         for _ in range(3):
@@ -586,6 +672,8 @@ def run(ctx, rec):
             work.append(("fp", d, fp, variant))
     if ctx.nshards > 1:
         work = work[ctx.shard:: ctx.nshards]
+    if ctx.shard == 0:
+        late_failure_retarget(rec)
     for w in work:
         if w[0] == "bomb":
             bomb_scenario(rec, w[1], w[2], w[3], w[4])
